@@ -48,6 +48,28 @@ pub(crate) async fn connect(endpoint: &Endpoint) -> ZmqResult<(FramedIo, Endpoin
 
 pub struct AcceptStopHandle(pub(crate) TaskHandle<()>);
 
+/// The stop signal of an accept task, shared with the handshakes it has started.
+pub(crate) type StopSignal = futures::future::Shared<futures::channel::oneshot::Receiver<()>>;
+
+/// Runs the callback for an accepted connection (its handshake) as a task of its own that
+/// ends together with the listener: a handshake still in progress when the listener is
+/// stopped (close, unbind, drop of the socket) is dropped, which closes the connection.
+pub(crate) fn spawn_until_stopped<T>(handshake: T, stopped: StopSignal)
+where
+    T: std::future::Future<Output = ()> + Send + 'static,
+{
+    use futures::FutureExt;
+    crate::async_rt::task::spawn(async move {
+        let handshake = handshake.fuse();
+        futures::pin_mut!(handshake);
+        let mut stopped = stopped.fuse();
+        futures::select! {
+            _ = handshake => {}
+            _ = stopped => {}
+        }
+    });
+}
+
 /// Spawns an async task that listens for connections at the provided endpoint.
 ///
 /// `cback` will be invoked when a connection is accepted. If the result was
